@@ -193,6 +193,15 @@ def mask_and(x, m):
 
 # ------------------------------------------------------------------- floats (dyadic rationals)
 
+class UnitScaled:
+    """an unknown float in [0, k): the result of random.random() (k = 1) possibly multiplied by a positive int.
+    int() of it is an unknown integer in 0..k-1 (trusted: CPython's int(random() * k) < k for the small k used)"""
+    __slots__ = ('k',)
+
+    def __init__(self, k):
+        self.k = k
+
+
 class Dyadic:
     """value = mant / 2**scale with |mant| <= 2**53 (so exactly representable in binary64)."""
     __slots__ = ('mant', 'scale')
@@ -232,6 +241,11 @@ def to_dyadic(v):
 
 
 def float_binop(op, a, b):
+    if isinstance(a, VFloat) and isinstance(a.v, UnitScaled) or isinstance(b, VFloat) and isinstance(b.v, UnitScaled):
+        u, o = (a, b) if isinstance(a, VFloat) and isinstance(a.v, UnitScaled) else (b, a)
+        if isinstance(op, ast.Mult) and is_numeric(o) and isinstance(as_int_term(o), int) and as_int_term(o) > 0:
+            return [(True, VFloat(UnitScaled(u.v.k * as_int_term(o))))]
+        return [(True, Raise(VExc(FloatInexact)))]
     out = []
     for ga, da in to_dyadic(a):
         for gb, db in to_dyadic(b):
@@ -281,6 +295,9 @@ def float_binop(op, a, b):
 
 def float_to_int(v):
     """int(float) : truncation toward zero"""
+    if isinstance(v, VFloat) and isinstance(v.v, UnitScaled):
+        j = z3.Int(fresh_name('rnd'))
+        return [(z3.And(j >= 0, j < v.v.k), VInt(j))]
     out = []
     for g, d in to_dyadic(v):
         if d is None:
